@@ -58,11 +58,17 @@ type fillPath struct {
 }
 
 type fillCtx struct {
-	fset  *token.FileSet
-	funcs map[string]*ast.FuncDecl
-	memo  map[string]bool
-	depth int
-	err   error
+	fset    *token.FileSet
+	funcs   map[string]*ast.FuncDecl
+	methods map[string]*ast.FuncDecl // methods of *Decoder in the same file
+	memo    map[string]bool
+	depth   int
+	err     error
+	// code-reading regions: a loop with reader calls is one marker "<loop" (its body is a region
+	// of its own, collected in loops), a call of a Decoder method that makes reader calls is one
+	// marker "<name"
+	allowLoops bool
+	loops      []*ast.ForStmt
 }
 
 func (c *fillCtx) fail(format string, a ...any) {
@@ -83,6 +89,11 @@ func (c *fillCtx) readerCall(call *ast.CallExpr) (string, int) {
 	case *ast.SelectorExpr:
 		if fillReaderMethods[f.Sel.Name] && isBr(c, f.X) {
 			return f.Sel.Name, 1
+		}
+		if id, ok := f.X.(*ast.Ident); ok && id.Name == "dec" && c.methods != nil {
+			if md, ok := c.methods[f.Sel.Name]; ok && md.Body != nil && c.hasReader(md.Body, "m:"+f.Sel.Name) {
+				return "<" + f.Sel.Name, 3
+			}
 		}
 	case *ast.Ident:
 		if f.Name == "ReadSymbol" && len(call.Args) >= 1 {
@@ -173,7 +184,7 @@ func (c *fillCtx) exprPaths(e ast.Node) []fillPath {
 		}
 		label, kind := c.readerCall(t)
 		switch kind {
-		case 1:
+		case 1, 3:
 			acc = fillSeq(acc, []fillPath{{calls: []string{label}}})
 		case 2:
 			if c.depth > 4 {
@@ -299,8 +310,19 @@ func (c *fillCtx) stmtPaths(s ast.Stmt) []fillPath {
 		return fillUnit
 	case *ast.EmptyStmt:
 		return fillUnit
+	case *ast.ForStmt:
+		if !c.hasReader(t, "") {
+			return fillUnit
+		}
+		if !c.allowLoops || t.Init != nil && c.hasReader(t.Init, "") || t.Cond != nil && c.hasReader(t.Cond, "") ||
+			t.Post != nil && c.hasReader(t.Post, "") {
+			c.fail("reader call inside unsupported loop: %s", oneLine(c.fset, s))
+			return fillUnit
+		}
+		c.loops = append(c.loops, t)
+		return []fillPath{{calls: []string{"<loop"}}}
 	default:
-		// for / range / switch / select / go / defer / labeled ...
+		// range / switch / select / go / defer / labeled ...
 		if c.hasReader(s, "") {
 			c.fail("reader call inside unsupported statement %T: %s", s, oneLine(c.fset, s))
 		}
@@ -347,7 +369,7 @@ func genFills(repo string) ([]byte, error) {
 	if err != nil {
 		return nil, err
 	}
-	c := &fillCtx{fset: fset, funcs: map[string]*ast.FuncDecl{}, memo: map[string]bool{}}
+	c := &fillCtx{fset: fset, funcs: map[string]*ast.FuncDecl{}, methods: map[string]*ast.FuncDecl{}, memo: map[string]bool{}}
 	var target *ast.FuncDecl
 	for _, d := range f.Decls {
 		fd, ok := d.(*ast.FuncDecl)
@@ -356,8 +378,11 @@ func genFills(repo string) ([]byte, error) {
 		}
 		if fd.Recv == nil {
 			c.funcs[fd.Name.Name] = fd
-		} else if fd.Name.Name == "decodeImageData" {
-			target = fd
+		} else {
+			c.methods[fd.Name.Name] = fd
+			if fd.Name.Name == "decodeImageData" {
+				target = fd
+			}
 		}
 	}
 	var b bytes.Buffer
@@ -415,6 +440,40 @@ func genFills(repo string) ([]byte, error) {
 	b.WriteString(strings.Join(lines, ",\n"))
 	b.WriteString("\n]\n\n")
 	fmt.Fprintf(&b, "/-- number of `br.FillBitWindow()` call sites in decodeImageData -/\ndef fillCalls : Nat := %d\n\n", fills)
+	// ---- prefix-code reading: readHuffmanCode, readHuffmanCodeLengths (and the bodies of their loops)
+	writeShape := func(name, doc string, paths []fillPath) {
+		fmt.Fprintf(&b, "/-- %s -/\ndef %s : List (String × List String) := [\n", doc, name)
+		var ls []string
+		for _, p := range paths {
+			ls = append(ls, fmt.Sprintf("  (%q,\n    %s)", strings.Join(p.conds, " "), leanStrList(p.calls)))
+		}
+		b.WriteString(strings.Join(ls, ",\n"))
+		b.WriteString("\n]\n\n")
+	}
+	for _, fn := range []string{"readHuffmanCode", "readHuffmanCodeLengths"} {
+		md := c.methods[fn]
+		if md == nil || md.Body == nil {
+			return nil, fmt.Errorf("%s not found in %s", fn, fillsFile)
+		}
+		c.allowLoops, c.loops = true, nil
+		paths := c.blockPaths(md.Body.List)
+		loops := c.loops
+		c.allowLoops = false
+		if c.err != nil {
+			return nil, c.err
+		}
+		if len(loops) != 1 {
+			return nil, fmt.Errorf("%s: expected exactly one loop with reader calls, found %d", fn, len(loops))
+		}
+		writeShape(fn, fmt.Sprintf("%s (%s): per path the ordered bit-reader calls; `<loop` = the loop `for %s` (its body: %sLoop), `<m` = a call of the Decoder method m",
+			fn, fillsFile, condStr(fset, loops[0]), fn), paths)
+		c.loops = nil
+		body := c.blockPaths(loops[0].Body.List) // nested loops with reader calls are refused (allowLoops is off)
+		if c.err != nil {
+			return nil, c.err
+		}
+		writeShape(fn+"Loop", fmt.Sprintf("%s: the body of `for %s`", fn, condStr(fset, loops[0])), body)
+	}
 	b.WriteString("end Generated.Fills\n")
 	return b.Bytes(), nil
 }
